@@ -22,12 +22,13 @@ def run(ctx, res):
         "build_pretty_string_item with identical arguments except the literal `coloring`; inside, `coloring` only selects the "
         "colour strings, which flow only into push_str and capacity computations; every colour constant is ESC [ digits m and "
         "no other constant contains ESC; R3 the backward scanner examines byte 0 (files whose first byte is a line break).  "
-        "R4 the code block is pushed through an unconditional replace(tab, four spaces).  Not decided: columns, widths, marker placement (rendering arithmetic).")
+        "R4 the code block is pushed through an unconditional replace(tab, four spaces); R5 no other text-rewriting operation is applied to listed text.  Not decided: columns, widths, marker placement (rendering arithmetic).")
     res.trusted += ["serde_json serialises a derived struct as an object with its field names, a unit variant as its name", "driver fact extraction and the abstract interpreter"]
     schema(ctx, res, "C16.R1")
     colour(ctx, res, "C16.R2")
     deletion.byte0_examined(ctx, res, "C16.R3")
     tabs_expanded(ctx, res, "C16.R4")
+    verbatim_lines(ctx, res, "C16.R5")
 
 
 def tabs_expanded(ctx, res, rule):
@@ -62,6 +63,31 @@ def tabs_expanded(ctx, res, rule):
                             % (T.render(p)[:80], " under a condition" if conditional else ""), loc=T.loc(n)))
     if okk:
         res.holds(rule, fn, "tab-expansion", "code_block.replace(\"\\t\", TABSPACE), unconditional")
+
+
+TEXT_TRANSFORMS = {"trim", "trim_end", "trim_start", "trim_matches", "trim_end_matches", "trim_start_matches", "to_lowercase", "to_uppercase",
+                   "to_ascii_lowercase", "to_ascii_uppercase", "replacen", "strip_prefix", "strip_suffix", "split_whitespace", "escape_default", "escape_debug",
+                   "chars", "char_indices", "bytes", "truncate", "pop", "remove", "retain", "drain", "rev"}
+
+
+def verbatim_lines(ctx, res, rule):
+    """The listed lines are the source lines: in the list renderers no text-transforming operation is applied to strings
+    (the only rewriting allowed is the tab expansion checked by R4 and the insertion of colour / marker / number strings)."""
+    P = ctx.lib
+    n_str = 0
+    for name in ("list::build_pretty_string_item", "list::build_pretty_string", "list::build_list"):
+        b = P.fn(name)
+        for n in T.nodes(b["tree"], "mcall"):
+            rty = (n["recv"].get("aty") or n["recv"].get("ty") or "").replace("&mut ", "").lstrip("&")
+            if rty not in ("str", "std::string::String"):
+                continue
+            n_str += 1
+            if n["name"] in TEXT_TRANSFORMS or (n["name"] == "replace" and T.lit_value(n["args"][0]) != "\t"):
+                res.add(Finding(rule, fshort(b), "text-transform:" + T.render(n)[-60:], "`%s` rewrites listed text: the item would no longer show the source lines verbatim "
+                                "(and the JSON form could differ from the colour-stripped pretty form)" % T.render(n)[-90:], loc=T.loc(n)))
+    res.floor(rule, "string operations inspected in the list renderers", n_str, 20)
+    if not [f for f in res.findings if f.rule == rule]:
+        res.holds(rule, "code::list", "verbatim-lines", "%d string operations, none rewrites text" % n_str)
 
 
 def schema(ctx, res, rule):
